@@ -19,8 +19,7 @@ TRUSTED = ["numpy indexing/moveaxis/unique/eye/split are what the list model giv
            "C20_one_hot_Z is for integer labels, the generic one takes the order laws as premises"]
 ASSUMPTIONS = ["inputs are small dyadic rationals; float test ratios in the correspondence are dyadic so that time_len*test_size is exact "
                "(the oracle also uses arbitrary float ratios)",
-               "map generators: n_timesteps <= 12 and trajectories with |value| <= 1e3 (float64 round-off stays far below the 1e-9 tolerance)",
-               "one_hot_encode: the list model covers label sets with >= 2 labels in total; a lone label (numpy 0-d reshape) is decided by the oracle only",
+               "map generators: n_timesteps <= 10 and trajectories with |value| <= 1e3 (float64 round-off stays far below the 1e-9 tolerance)",
                "narma: x0 is given as a column (k,1) (or left to its default), length <= n_timesteps + order"]
 
 WORDS = ["a", "b", "B", "ab", "aB", "a1", "Z", "_x", "10", "9", "cat", "ca", "dog", "Dog", "zz", "A"]
@@ -94,6 +93,11 @@ def gen_labels(rng, n, typ):
 
 def gen_onehot(rng, min_total=2):
     typ = rng.choice(["int", "int", "str", "str", "bool"])
+    if min_total == 1:     # a lone label: (1,) array / one-element list / one sequence of length 1
+        lab = gen_labels(rng, 1, typ)
+        if rng.random() < 0.6:
+            return {"kind": "onehot", "typ": typ, "form": rng.choice(["list", "arr", "col"]), "labels": lab}
+        return {"kind": "onehot_multi", "typ": typ, "form": rng.choice(["seqs", "seqs_col"]), "seqs": [lab]}
     if rng.random() < 0.5:
         n = rng.randint(min_total, 10)
         form = rng.choice(["list", "arr", "col"])
@@ -117,7 +121,7 @@ def gen_onehot(rng, min_total=2):
 
 
 def gen_map(rng, which):
-    n = rng.randint(1, 12)
+    n = rng.randint(1, 10)     # exact rationals double in size at every step: 10 steps ~ 10^4 bits
     if which == "logistic":
         if rng.random() < 0.08:
             bad = rng.choice([["0", "1/2"], ["-1", "1/4"], ["3", "0"], ["3", "1"], ["2", "5/4"], ["2", "-1/4"]])
@@ -134,6 +138,7 @@ def gen_map(rng, which):
     order = rng.randint(1, 4)
     if rng.random() < 0.3:
         par = ["0.2", "0.04", "1.5", "0.001"]       # library defaults (not dyadic: passed as their exact float value)
+        n = min(n, 7)
     else:
         par = [str(Fraction(rng.randint(-4, 8), 16)), str(Fraction(rng.randint(-2, 4), 16)),
                str(Fraction(rng.randint(-4, 12), 4)), str(Fraction(rng.randint(-4, 16), 64))]
@@ -163,7 +168,7 @@ def gen_cases(rng, n, oracle=False):
                     c["kind"] = "fc_err"
                 cases.append(c)
         elif kind == "onehot":
-            cases.append(gen_onehot(rng, min_total=1 if (oracle and rng.random() < 0.1) else 2))
+            cases.append(gen_onehot(rng, min_total=1 if rng.random() < 0.1 else 2))
         else:
             cases.append(gen_map(rng, kind))
     return cases
@@ -361,12 +366,12 @@ def correspondence(ctx):
         dist[kk] = dist.get(kk, 0) + 1
         if nontrivial(c, o):
             nt.add(repr(jsonable(c)))
-    failing, err = core.run_cases(ctx.pid, IMPORTS, terms, chunk=120)
+    failing, err = core.run_cases(ctx.pid, IMPORTS, terms, chunk=20)
     evaluated = len(cases) - dist.get("skipped-diverging", 0)
     return {"evaluations": evaluated, "distinct_nontrivial": len(nt),
             "rule": "seeded scenarios: to_forecasting on 1-D/2-D series (time axis 0/1, forecast 1-3, test_size None/int incl. 0, negative, "
                     "too large/dyadic ratio, a few rejected ratios), one_hot_encode on int/str/bool labels (list, array, column, list of "
-                    "sequences, (n,m) and (n,m,1) grids), logistic/Henon (n<=12), narma (order 1-4, n<=12, supplied u and x0); "
+                    "sequences, (n,m) and (n,m,1) grids), logistic/Henon (n<=10), narma (order 1-4, n<=10, supplied u and x0); "
                     "non-trivial = every returned part non-empty with >=2 distinct values / >=2 classes and unsorted labels or >=2 sequences / "
                     "n>=3 with a non-zero value after the initial condition; distinct by scenario text",
             "samples": [keep[0], keep[1], keep[min(4, len(keep) - 1)]],
